@@ -195,6 +195,16 @@ def _diff(a, b, names: dict, rnames: dict, out: list, in_msg=False) -> bool:
             out.append(("operator", type(a).__name__, type(b).__name__))
             return True
         # `x` against `x - 1` / `x + 1`: the same operand with a constant offset is a leaf (an off-by-one), not another shape
+        # `x[:, :3]` against `x`: a literal index / slice more or less on the same thing
+        for sub, plain, flip in ((a, b, False), (b, a, True)):
+            if isinstance(sub, ast.Subscript) and _literal_index(sub.slice) and isinstance(plain, (ast.Name, ast.Attribute, ast.Call)) \
+                    and not (isinstance(sub.slice, ast.Slice) and sub.slice.lower is None and sub.slice.upper is None and sub.slice.step is None):
+                n1, r1, o1 = dict(names), dict(rnames), []
+                ok = _diff(plain, sub.value, n1, r1, o1, in_msg) if flip else _diff(sub.value, plain, n1, r1, o1, in_msg)
+                if ok and not o1:
+                    names.update(n1); rnames.update(r1)
+                    out.append(("subscript", ast.unparse(a)[:60], ast.unparse(b)[:60]))
+                    return True
         # `x is None` against `not x` (and `x is not None` against `x`): they differ for every falsy x that is not None
         for none_t, truth_t in ((a, b), (b, a)):
             if isinstance(none_t, ast.Compare) and len(none_t.ops) == 1 and isinstance(none_t.ops[0], (ast.Is, ast.IsNot)) \
